@@ -42,7 +42,7 @@ func (c24) Describe() engine.Info {
 			"Oracle: checkpoint digests every 4096 cycles and final state digest equal between run 1, run 2 (same process, after the disturber) and run 3 (fresh process, other GOMAXPROCS). Signature = (workload kind or ROM, audio, video, keys present)." +
 			" One scenario in eight stalls the host in real time inside a few cycles of the second and third run; workload irq: handlers identify themselves on the serial port while several requests are pending at once.",
 		Assumptions:    []string{"a panic of the emulator ends a run; it must then occur at the same cycle in every run (whether it may occur at all is C11's business)"},
-		RequiredProbes: []string{"child_process_runs", "frames_compared", "samples_compared", "host_stalled_mid_frame"},
+		RequiredProbes: []string{"child_process_runs", "frames_compared", "samples_compared", "host_stalled_mid_frame", "samples_compared_across_consumer_paces"},
 		RealComponents: realComponents, StubComponents: stubComponents,
 	}
 }
@@ -55,6 +55,38 @@ func (c24) Generate(r *engine.Rand, index int, tier string) *engine.Scenario {
 	}
 	if index%4 == 1 {
 		w.Kind, w.Video = "scene", true
+	}
+	if index%16 == 9 {
+		// the largest cartridges (and other shapes): what the guest reads from far-away pages straight
+		// after construction is part of the trace
+		sc.Class = "triple-run-shape"
+		w.Shape = 1 + r.Intn(len(freeShapes))
+		if r.Bool() {
+			w.Shape = 1 + r.Intn(2)
+		}
+		if w.Kind == "rom" {
+			w.Kind = "prog"
+		}
+	}
+	if index%16 == 13 {
+		// the pace of the audio device: a consumer in a goroutine of its own takes the samples in bursts of
+		// one size in one run and of another size in the next; the two streams are the same, sample for sample
+		sc.Class = "consumer-pace"
+		w.Kind, w.Audio = "scene", true
+		w.store(sc, "")
+		sc.ChanCap = engine.Pick(r, []int{0, 1, 2, 4, 16, 64})
+		capEff := sc.ChanCap // a consumer may take at most as many samples of one side in a row as a queue holds
+		if capEff == 0 {
+			capEff = 200
+		}
+		sc.SetP("burst1", 1)
+		b2 := capEff
+		if r.Bool() {
+			b2 = r.Range(1, capEff)
+		}
+		sc.SetP("burst2", int64(b2))
+		sc.Cycles = uint64(r.Range(1, 3)) * 17556
+		return sc
 	}
 	w.store(sc, "")
 	randomWorkload(r).store(sc, "d.")
@@ -155,6 +187,38 @@ func diffPoint(a, b []uint64) int {
 func (c24) Execute(sc *engine.Scenario) *engine.Result {
 	res := &engine.Result{}
 	w := loadWorkload(sc, "")
+	if sc.Class == "consumer-pace" {
+		frames := int(sc.Cycles / 17556)
+		var prevL, prevR []float32
+		for i, b := range []int{int(sc.P("burst1", 1)), int(sc.P("burst2", 7))} {
+			ls, rs, ok := runWithConsumer(w, frames, sc.ChanCap, b, res)
+			if !ok {
+				return res
+			}
+			res.Fault("consumer_pace_changed")
+			if len(ls) != len(rs) {
+				res.Fail("C24/consumer-pace/unpaired", uint64(len(rs)), "consumer taking %d samples at a time: %d left samples and %d right samples were delivered for the same frames", b, len(ls), len(rs))
+				return res
+			}
+			if i == 1 {
+				if len(ls) != len(prevL) {
+					res.Fail("C24/consumer-pace/count", uint64(len(ls)), "the number of samples depends on the consumer's pace: %d against %d", len(prevL), len(ls))
+					return res
+				}
+				for j := range ls {
+					if ls[j] != prevL[j] || rs[j] != prevR[j] {
+						res.Fail("C24/consumer-pace/sample", uint64(j), "sample %d differs between a consumer taking %d and one taking %d samples at a time: (%v,%v) against (%v,%v)", j, sc.P("burst1", 1), b, prevL[j], prevR[j], ls[j], rs[j])
+						return res
+					}
+				}
+			}
+			prevL, prevR = ls, rs
+		}
+		res.ProbeN("samples_compared_across_consumer_paces", len(prevL))
+		res.Sig(fmt.Sprintf("consumer-pace/cap=%d", sc.ChanCap))
+		res.Cycles = sc.Cycles * 2
+		return res
+	}
 	p1, t1 := traceOf(sc, "", res)
 	if res.Harness != "" {
 		return res
